@@ -41,7 +41,12 @@ func (s *sys) snapshot() snap {
 	sn.headers = map[uint64]tmconsensus.CommittedHeader{}
 	sn.rounds = map[[2]uint64]roundState{}
 	ctx := context.Background()
-	if s.m != nil {
+	if s.eng != nil {
+		// The engine exposes no view API: the views are what its gossip strategy was last handed.
+		sn.ok = s.eng.e != nil
+		sn.voting = s.eng.lastVoting.Clone()
+		sn.committing = s.eng.lastCommitting.Clone()
+	} else if s.m != nil {
 		r := s.call("VotingView", func(ctx context.Context) string {
 			if err := s.m.VotingView(ctx, &sn.voting); err != nil {
 				return "err"
@@ -231,7 +236,7 @@ func (s *sys) key(sn snap) string {
 	}
 	sort.Strings(acted)
 	fmt.Fprintf(&sb, "SM %v %d/%d acted=%v c=%v n=%v j=%v/%d stall=%v/%v down=%v\n", s.sm.entered, s.sm.h, s.sm.r, acted, s.sm.sawCommit, s.sm.sawNilAdv, s.sm.sawJump, s.sm.jumpTo,
-		s.stallG, s.stallS, s.m == nil)
+		s.stallG, s.stallS, !s.alive())
 	if s.stallG || s.stallS {
 		// Pending outputs cannot be observed without consuming them: never merge stalled states.
 		fmt.Fprintf(&sb, "stalled-at-step %d\n", s.step)
